@@ -158,6 +158,8 @@ func (Prop) Generate(seed uint64, tier string) *core.Plan {
 			Recycle: []float64{0.5, 0.9, 1}[r.Intn(3)],
 			Purge:   []float64{0, 0.02}[r.Intn(2)],
 			Shuffle: []float64{0, 0.5}[r.Intn(2)],
+			// stalled-task fault at synchronisation points (atomic operations, lock acquisitions)
+			Stall: []float64{0, 0, 0.03, 0.1, 0.3}[r.Intn(5)],
 		},
 	}
 	p.SetWorkload(&w)
@@ -480,6 +482,7 @@ func (Prop) Run(p *core.Plan) *core.Result {
 	res.Evals = 1
 	switches := world.Fired[simrt.KSched]
 	res.Faults["task_switch"] = int(switches)
+	res.Faults["task_stall"] = int(world.Fired[simrt.KStall])
 	res.Faults["pool_recycle"] = int(world.Fired[simrt.KPoolGet])
 	res.Recorded = simrt.End()
 	res.Events = world.Events
